@@ -61,7 +61,7 @@ func genSpec(t *rapid.T, maxElems int) hist.DSpec {
 		d.OpaqueLen = rapid.SampledFrom([]int{1, 3, 8, 17}).Draw(t, "olen")
 		d.OpaqueTag = rapid.SampledFrom([]string{"t", "tag", "opaque-tag-1", "12345678"}).Draw(t, "otag")
 	case "cmp":
-		d.Type = rapid.SampledFrom([]string{"cmp:num", "cmp:str"}).Draw(t, "cmp")
+		d.Type = rapid.SampledFrom([]string{"cmp:num", "cmp:str", "cmp:pad", "cmp:ooo"}).Draw(t, "cmp")
 	default:
 		d.Type = kind
 	}
